@@ -363,3 +363,148 @@ def replay_curve_command_tokens(model, params, role):
         script = "engine server type=REP curve_sk=" + "11" * 32 + "\nstart\nfeed " + (greet + frame(hello)).hex() + "\nfeed " + frame(init).hex() + "\nphase\n"
         return script, (lambda out: "PANIC" in out), f"CURVE listener: valid-looking HELLO, then INITIATE whose Ciphertext value has {L} bytes; expecting a panic"
     return None
+
+
+# ------------------------------------------------------------------------------------------------
+# handshake interval: a peer that paces its bytes must not keep the handshake alive beyond HANDSHAKE_IVL
+ACTOR = "sessionx::actor::SessionConnectionActorX"
+
+
+class _StopRegion(Exception):
+    pass
+
+
+def handshake_deadline(h):
+    """The tokio session actor's handshake loop (run_loop, region mode from `self.read_half.take()` of the handshake
+    block): a slow peer delivers ONE byte per read, each read completing just before the timer that guards it would
+    fire. Timers are recording objects on a symbolic, monotone clock: every timer armed inside the loop must expire
+    no later than (time the loop was entered + HANDSHAKE_IVL)."""
+    import re as _re
+    from ..models import some, none, ok, err, dur_ns, instant_ns, _deref
+    from .d_c01 import _debug_places
+    prog = h.it.prog
+    fn = prog.resolve_method("", ACTOR, "run_loop", None)
+    clo = fn + "::{closure#0}"
+    body = prog.body(clo)
+    dbg = _debug_places(prog, clo)
+    W = 128
+    ivl = h.bvar("handshake_ivl_ns", W)
+    h.assume(z3.And(z3.UGE(ivl, 1_000_000), z3.ULE(ivl, z3.BitVecVal(3_600_000_000_000, W))))         # 1 ms .. 1 h
+    # engine of a listener in the Greeting phase
+    cfg = mk_config(h, socket_type_name=string("PULL"), handshake_timeout=some(dur_ns(ivl)))
+    eng = mk_engine(h, True, cfg)
+    start(h, eng)
+    # symbolic monotone clock shared by Instant::now() and by the arming of timers
+    clock = {"last": None, "n": 0}
+    def tick():
+        t = h.bvar(f"t{clock['n']}", W)
+        clock["n"] += 1
+        h.assume(z3.ULE(t, z3.BitVecVal(1 << 70, W)))
+        if clock["last"] is not None:
+            h.assume(z3.UGE(t, clock["last"]))
+        clock["last"] = t
+        return t
+    t_enter = tick()
+    armed = []           # (arming time, expiry)
+    reads = {"n": 0}
+    peer = list(SIG)     # an honest signature, one byte per read
+    def read_buf(it, args, dty, func):
+        return Agg("{future}", ["read_buf", args[1]])
+    def timeout_fn(it, args, dty, func):
+        now = tick()
+        if armed:
+            # the previous read completed before its timer fired
+            h.assume(z3.ULT(now, armed[-1][1]))
+        d = args[0].f[0]
+        armed.append((now, simp(now + bv(d, W))))
+        return Agg("{timeout}", [args[0], args[1]])
+    def timeout_at_fn(it, args, dty, func):
+        now = tick()
+        if armed:
+            h.assume(z3.ULT(now, armed[-1][1]))
+        armed.append((now, bv(args[0].f[0], W)))
+        return Agg("{timeout}", [args[0], args[1]])
+    def extern(it, plain, args, dty, func):
+        if plain.endswith("AsyncReadExt>::read_buf"):
+            return read_buf(it, args, dty, func)
+        if plain.startswith("tokio::time::timeout_at"):
+            return timeout_at_fn(it, args, dty, func)
+        if plain.startswith("tokio::time::timeout"):
+            return timeout_fn(it, args, dty, func)
+        if plain in ("tokio::time::Instant::now", "std::time::Instant::now"):
+            return instant_ns(tick())
+        if plain.endswith("Future>::poll"):
+            fut = _deref(args[0])
+            if isinstance(fut, Agg) and fut.ty == "{timeout}":
+                inner = fut.f[1]
+                buf = inner.f[1]
+                while isinstance(buf, Ref) and not isinstance(buf.load(), Seq):
+                    buf = buf.load()
+                if reads["n"] >= h.params.get("reads", 3):
+                    raise _StopRegion()
+                buf.load().f.append(peer[reads["n"]])
+                reads["n"] += 1
+                return Enum("std::task::Poll", 0, "Ready", [ok(ok(1))])
+            if isinstance(fut, Agg) and fut.ty == "{future}":
+                return Enum("std::task::Poll", 0, "Ready", [UNIT])
+            return NotImplemented
+        if plain.endswith("IntoFuture>::into_future") or plain.startswith("std::pin::Pin::"):
+            return args[0]
+        return NotImplemented
+    h.it.extern = extern
+    for nm in ("tokio::time::timeout", "tokio::time::timeout_at"):
+        h.it.hooks[nm] = timeout_fn if nm.endswith("timeout") else timeout_at_fn
+    # what the engine emits during the handshake goes to the socket / the actor's own state: not part of this obligation
+    h.it.hooks[prog.resolve_method("", ACTOR, "apply_engine_output_handshake", None)] = lambda it, a, d, f: Agg("{future}", ["noop"])
+    fields = prog.struct_fields(ACTOR)
+    vals = [Opaque(f) for f in fields]
+    def setf(name, v):
+        vals[fields.index(name)] = v
+    vs = prog.enum_variants("sessionx::states::ConnectionPhaseX")
+    setf("current_phase", Enum("sessionx::states::ConnectionPhaseX", 0, vs[0], []))
+    setf("zmtp_engine", eng.load())
+    setf("read_half", some(Agg("{reader}", [])))
+    setf("handshake_read_buf", Seq("bytesmut", []))
+    setf("handle", 1)
+    if "handshake_deadline" in fields:
+        setf("handshake_deadline", some(instant_ns(simp(t_enter + ivl))))
+    actor = Agg(ACTOR, vals)
+    sf = SparseF([actor])
+    i0 = prog.fn_index[clo]
+    mm = None
+    for ln in prog.lines[i0:i0 + 20000]:
+        mm = _re.search(r"\(\(\(\*_(\d+)\) as variant#(\d+)\)\.(\d+): sessionx::actor::SessionConnectionActorX<S>\)", ln)
+        if mm or ln.startswith("}"):
+            break
+    h.check(mm is not None, "c07.handshake-ivl.setup-actor-place")
+    sf[(int(mm.group(2)) + 1) * 1000 + int(mm.group(3))] = actor
+    coro = Ref(Cell(Agg("{coroutine@run_loop}", sf), "coro"), ())
+    # entry: the first `Option<ReadHalf>::take` in source order (start of the handshake block)
+    best = None
+    for bb, raw in body.blocks.items():
+        if "ReadHalf>::take(" in raw[-1][0]:
+            m2 = _re.search(r"actor\.rs:(\d+):", raw[-1][1] or "")
+            line = int(m2.group(1)) if m2 else 10 ** 9
+            if best is None or line < best[0]:
+                best = (line, bb)
+    h.check(best is not None, "c07.handshake-ivl.setup-entry-block")
+    h.panic_role = "c07.handshake-ivl"
+    try:
+        h.it.run_body(body, [], start_bb=best[1], preset={int(mm.group(1)): coro, 2: Opaque("cx")})
+    except _StopRegion:
+        pass
+    h.check(len(armed) >= 2, "c07.handshake-ivl.setup-several-reads", str(len(armed)))
+    # nothing suspends between entering the loop and arming the first timer: that instant is the start of the interval
+    deadline = simp(armed[0][0] + ivl)
+    for i, (now, exp) in enumerate(armed):
+        h.check(z3.ULE(exp, deadline), "c07.handshake-ivl.timer-extends-the-handshake-beyond-the-interval",
+                f"read #{i + 1} of a peer that sends one byte per read is guarded by a timer that expires after (loop entry + HANDSHAKE_IVL): "
+                f"the interval restarts with every read, so a slow-dripping peer is never disconnected")
+    h.cover("c07.handshake-ivl.three-slow-reads", len(armed) >= 3)
+
+
+def replay_handshake_deadline(model, params, role):
+    if "timer-extends-the-handshake" in role:
+        return "handshake_drip 500 300 10\n", (lambda out: "STILL OPEN" in out), \
+            "PULL listener with HANDSHAKE_IVL=500 ms, raw peer sends one greeting byte every 300 ms for 3 s; expecting the connection to stay open"
+    return None
